@@ -12,7 +12,7 @@ EXTRACTS = ["FloatOps", "AsDouble"]
 #   us   : underscore rule "digit on both sides" in both _Copy loops  (C06-asdouble.diff)
 #   le   : `i < end` in __Pyx__PyUnicode_AsDouble_Copy               (C06-asdouble.diff)
 #   sp   : unicode path strips exactly what CPython's float() strips  (C06-asdouble.diff)
-FIX = {"mod": False, "fdiv": False, "us": False, "le": False, "sp": False}
+FIX = {"mod": True, "fdiv": True, "us": True, "le": True, "sp": True}
 
 RULE = ("doubles: all 17x17 pairs of special values (+-0, +-inf, nan, +-min subnormal, +-min normal, +-max, +-1, "
         "+-0.1, +-5) plus PRNG pairs (random bit patterns, near-integer quotients, equal/opposite magnitudes) for each "
